@@ -297,6 +297,10 @@ func parseVpsSpsPpsAnnexbFromRecord(payload []byte) (vps, sps, pps []byte, err e
 }
 
 func parseVpsSpsPpsFromRecord(payload []byte) (vps, sps, pps []byte, err error) {
+	// 5字节rtmp video tag头 + 23字节HEVCDecoderConfigurationRecord固定部分 + 第一个array的5字节头
+	if len(payload) < 33 {
+		return nil, nil, nil, nazaerrors.Wrap(base.ErrShortBuffer)
+	}
 	index := 27
 	if numOfArrays := payload[index]; numOfArrays != 3 && numOfArrays != 4 {
 		return nil, nil, nil, nazaerrors.Wrap(base.ErrHevc)
